@@ -1,10 +1,12 @@
 """C02 search oracle — totality: markdown.markdown(text, extensions=S, output_format=f) returns a str and terminates.
 
 A case is (text, S, f).  Any exception is a violation (BaseException subclasses included, except KeyboardInterrupt from
-outside); a conversion running longer than CAP seconds of wall clock (SIGALRM in this process) is re-run once alone and,
+outside); a conversion using more than CAP seconds of CPU time of this process (ITIMER_PROF/SIGPROF, user+system; wall clock is
+NOT a criterion: a WALL_CAP backstop only keeps the search from hanging and is counted in dist as `wallclock_backstop`) is re-run once and,
 if it hits the cap again, reported as a violation 'timeout'.  A non-str result is a violation.
-Known regions (tagged with their finding id, narrow predicates below): F-C02-1, F-C02-2, F-C02-3 (the latter is not
-generated: list nesting stays <= 25 levels; the tag applies only to inputs nested deeper than 60 levels).
+Known regions (tagged with their finding id, narrow predicates in `classify`: exception type + raising frame + syntactic
+trigger in the input): F-C02-1..F-C02-9 (F-C02-3 is not generated: pure list nesting stays <= 52 levels and the tag applies
+only above 60; F-C02-8 needs Pygments, which the environment has).
 
 distinct / non-trivial: distinct (text, S, f) whose text is not blank (a blank text takes the early return of convert)."""
 import re
@@ -18,8 +20,9 @@ from gen import common as G
 from gen import c02_families as F
 
 NEEDS_DRIVER = False
-CAP = 20.0
-MAX_TIMEOUTS = 3
+CAP = 60.0          # seconds of CPU time (user+system of this process) per conversion
+WALL_CAP = 600.0    # wall-clock backstop: only so that the search itself cannot hang; never a violation by itself
+MAX_TIMEOUTS = 2
 
 FINDINGS = [
     # F-C02-1 and F-C02-4 were repaired in /repo (fix: commits); their witnesses stay as regression cases (status fixed: a
@@ -32,11 +35,27 @@ FINDINGS = [
      'witness': {'text': '[^a]: [^b]: x\n\n[^c]: y\n\n[^a][^c]', 'extensions': ['footnotes'], 'output_format': 'xhtml'}},
     {'id': 'F-C02-3', 'property': 'C02', 'status': 'open',
      'what': 'some hundred nested list levels (300-500 depending on the stack already in use; indented items, or markers repeated on one '
-             'line `- - - x`) raise RecursionError (block quotes are guarded, lists are not)',
+             'line `- - - x`; likewise some 330 nested admonitions with the admonition extension) raise RecursionError (block quotes are guarded, lists and admonitions are not)',
      'witness': {'build': 'nested_list_oneline', 'depth': 1500, 'extensions': [], 'output_format': 'xhtml'}},
     {'id': 'F-C02-4', 'property': 'C02', 'status': 'fixed',
      'what': "abbr: a definition with the title '' or \"\" (which removes an abbreviation) for a term that is not defined raises KeyError (dict.pop without default)",
      'witness': {'text': "*[X]: ''\n\nX y", 'extensions': ['abbr'], 'output_format': 'xhtml'}},
+    {'id': 'F-C02-5', 'property': 'C02', 'status': 'open',
+     'what': 'footnotes + md_in_html: a raw element with class "footnote" parsed as Markdown whose list items have no id: ValueError (not enough values to unpack) in FootnotePostTreeprocessor.get_num_duplicates',
+     'witness': {'text': '<div class="footnote" markdown="1">\n1. x\n</div>', 'extensions': ['md_in_html', 'footnotes'], 'output_format': 'xhtml'}},
+    {'id': 'F-C02-6', 'property': 'C02', 'status': 'open',
+     'what': 'md_in_html: a raw <ul>/<ol> without items that md_in_html put into the tree, followed by a Markdown list (inside the container or right after it): IndexError (lst[-1]) in OListProcessor.run',
+     'witness': {'text': '<div markdown="1">\n<ul>\n</ul>\n\n* a\n</div>', 'extensions': ['md_in_html'], 'output_format': 'xhtml'}},
+    {'id': 'F-C02-7', 'property': 'C02', 'status': 'open',
+     'what': 'md_in_html: an attribute name starting with `{` on a markdown= element: ValueError from ElementTree namespace handling (add_qname) at serialisation',
+     'witness': {'text': '<hr markdown="1" {a>', 'extensions': ['md_in_html'], 'output_format': 'xhtml'}},
+    {'id': 'F-C02-8', 'property': 'C02', 'status': 'open',
+     'what': 'fenced_code + codehilite (Pygments installed): key=value pairs of the fence brace list are forwarded unvalidated: lang=/style= give TypeError (multiple values for keyword), '
+             'Pygments options with unusable values give OptionError / ClassNotFound / LookupError / RuntimeError / OverflowError from Pygments',
+     'witness': {'text': '```{.python linenostart=x}\nx\n```', 'extensions': ['fenced_code', 'codehilite'], 'output_format': 'xhtml'}},
+    {'id': 'F-C02-9', 'property': 'C02', 'status': 'open',
+     'what': 'fenced_code + attr_list without highlighting: a boolean option (linenums, guess_lang, noclasses, use_pygments) in the fence brace list is written as an attribute with a bool/None value: TypeError cannot serialize',
+     'witness': {'text': '``` { .c guess_lang=2 }\nx\n```', 'extensions': ['fenced_code', 'attr_list'], 'output_format': 'xhtml'}},
 ]
 
 
@@ -44,7 +63,13 @@ class _Timeout(BaseException):
     pass
 
 
+class _WallClock(BaseException):
+    pass
+
+
 def _on_alarm(signum, frame):
+    if signum == signal.SIGALRM:
+        raise _WallClock()
     raise _Timeout()
 
 
@@ -58,37 +83,67 @@ def _build(w):
     raise ValueError('unknown witness')
 
 
+def _timers(on, cap=CAP):
+    """the cap is on CPU time of this process (ITIMER_PROF): a conversion that does not terminate burns CPU, while a loaded
+    machine (other checks running on all cores) must not turn a 1 s conversion into a reported timeout; a wall-clock
+    backstop of WALL_CAP seconds catches a conversion that blocks without computing.  Both re-fire every second in case a
+    bare `except:` inside the library swallows the first delivery."""
+    if on:
+        signal.setitimer(signal.ITIMER_PROF, cap, 1.0)
+        signal.setitimer(signal.ITIMER_REAL, WALL_CAP, 1.0)
+    else:
+        signal.setitimer(signal.ITIMER_PROF, 0)
+        signal.setitimer(signal.ITIMER_REAL, 0)
+
+
 def run_one(text, exts, fmt, cap=CAP):
-    """-> (status, detail, seconds); status in ok | exception | timeout | nonstr"""
+    """-> (status, detail, cpu seconds); status in ok | exception | timeout (CPU cap) | wallclock (backstop only) | nonstr"""
     timer = threading.current_thread() is threading.main_thread() and hasattr(signal, 'setitimer')
-    old = None
-    t0 = time.perf_counter()
+    old = old2 = None
+    t0 = time.process_time()
     try:
         if timer:
-            old = signal.signal(signal.SIGALRM, _on_alarm)
-            signal.setitimer(signal.ITIMER_REAL, cap, 1.0)   # re-fires every second in case a bare `except:` swallows it
+            old = signal.signal(signal.SIGPROF, _on_alarm)
+            old2 = signal.signal(signal.SIGALRM, _on_alarm)
+            _timers(True, cap)
         try:
             r = markdown.markdown(text, extensions=list(exts), output_format=fmt)
         finally:
             if timer:
-                signal.setitimer(signal.ITIMER_REAL, 0)
-        dt = time.perf_counter() - t0
+                _timers(False)
+        dt = time.process_time() - t0
         if not isinstance(r, str):
             return 'nonstr', {'type': type(r).__name__}, dt
         return 'ok', None, dt
     except _Timeout:
-        return 'timeout', {'type': 'timeout', 'cap': cap}, time.perf_counter() - t0
+        if timer:
+            _timers(False)
+        return 'timeout', {'type': 'timeout', 'cap': cap}, time.process_time() - t0
+    except _WallClock:
+        if timer:
+            _timers(False)
+        cpu = time.process_time() - t0
+        # the backstop alone says nothing about the converter (a loaded or suspended machine): an infrastructure event
+        return ('timeout' if cpu >= cap else 'wallclock'), {'type': 'wallclock_backstop', 'cap': WALL_CAP, 'cpu': round(cpu, 1)}, cpu
     except KeyboardInterrupt:
         raise
     except BaseException as e:  # noqa: the property is "never raises"
         if timer:
-            signal.setitimer(signal.ITIMER_REAL, 0)
+            _timers(False)
         tb = traceback.extract_tb(e.__traceback__)
         where = [(f.filename.replace('\\', '/').rsplit('/', 1)[-1], f.name) for f in tb[-6:]]
-        return 'exception', {'type': type(e).__name__, 'msg': str(e)[:200], 'where': where}, time.perf_counter() - t0
+        stack = []
+        for f in tb:
+            key = (f.filename.replace('\\', '/').rsplit('/', 1)[-1], f.name)
+            if key not in stack and len(stack) < 80: stack.append(key)
+        last = '/'.join(tb[-1].filename.replace('\\', '/').split('/')[-3:]) if tb else ''
+        return 'exception', {'type': type(e).__name__, 'module': type(e).__module__, 'msg': str(e)[:200], 'where': where, 'stack': stack, 'last_file': last}, time.process_time() - t0
     finally:
-        if timer and old is not None:
-            signal.signal(signal.SIGALRM, old)
+        if timer:
+            try: _timers(False)
+            except Exception: pass
+            if old is not None: signal.signal(signal.SIGPROF, old)
+            if old2 is not None: signal.signal(signal.SIGALRM, old2)
 
 
 _FNDEF = re.compile(r'\[\^[^\]]*\]:')
@@ -124,6 +179,11 @@ def _list_depth(text):
     return best
 
 
+_BRACEFENCE = re.compile(r'^[ >\t]*(?:`{3,}|~{3,})[ ]*\{([^\n]*)\}', re.M)
+_BOOLOPT = re.compile(r'(?<![^\s{:])(?:linenums|guess_lang|noclasses|use_pygments)(?![^\s=}])')
+_FOOTCLASS = re.compile(r'<[A-Za-z][^<>]*\bclass\s*=\s*["\']?[^"\'<>]*\bfootnote\b', re.I)
+_RAWLIST = re.compile(r'<(?:ul|ol)\b', re.I)
+_BRACEATTR = re.compile(r'<[A-Za-z][^<>]*\{[^<>]*>')
 _ABBR_POP = re.compile(r'^[*]\[[^\\\]]*?\][ ]?:[ ]*\n?[ ]*(?:\'\'|"")[ ]*$', re.M)
 
 
@@ -138,13 +198,33 @@ def classify(text, exts, detail):
         return 'F-C02-2'
     if t == 'RecursionError' and _list_depth(text) > 60:
         return 'F-C02-3'
+    stack = [tuple(x) for x in (detail.get('stack') or where)]
+    last = tuple(where[-1]) if where else None
+    xs = set(exts)
+    if t == 'ValueError' and 'not enough values to unpack' in detail.get('msg', '') and last == ('footnotes.py', 'get_num_duplicates') \
+            and ({'footnotes', 'extra'} & xs) and _FOOTCLASS.search(text):
+        return 'F-C02-5'
+    if t == 'IndexError' and 'child index out of range' in detail.get('msg', '') and last == ('blockprocessors.py', 'run') \
+            and ({'md_in_html', 'extra'} & xs) and _RAWLIST.search(text):
+        return 'F-C02-6'
+    if t == 'ValueError' and last == ('ElementTree.py', 'add_qname') and ({'md_in_html', 'extra'} & xs) and _BRACEATTR.search(text):
+        return 'F-C02-7'
+    opts = [m.group(1) for m in _BRACEFENCE.finditer(text)]
+    has_option = any(any(tok and tok[0] not in '.#' for tok in o.replace(':', ' ', 1).split()) for o in opts)
+    if ({'fenced_code', 'extra'} & xs) and ('fenced_code.py', 'run') in stack and has_option:
+        if 'codehilite' in xs and ('pygments/' in detail.get('last_file', '')
+                                    or (t == 'TypeError' and 'got multiple values for' in detail.get('msg', '') and last == ('fenced_code.py', 'run'))):
+            return 'F-C02-8'
+        if t == 'TypeError' and 'cannot serialize' in detail.get('msg', '') and last == ('serializers.py', '_raise_serialization_error') \
+                and ('fenced_code.py', '<genexpr>') in stack and ({'attr_list', 'extra'} & xs) and any(_BOOLOPT.search(o) for o in opts):
+            return 'F-C02-9'
     if t == 'KeyError' and ({'abbr', 'extra'} & set(exts)) and where and where[-1] == ('abbr.py', 'run') and _ABBR_POP.search(text):
         return 'F-C02-4'
     return None
 
 
-KINDS = ['codepoints', 'soup', 'soup-ctrl', 'mutated', 'lines', 'long-run', 'deep', 'mixed', 'tiny', 'alternating', 'heading-html', 'md-in-html']
-WEIGHTS = [12, 19, 7, 12, 10, 9, 9, 8, 9, 6, 10, 9]
+KINDS = ['codepoints', 'soup', 'soup-ctrl', 'mutated', 'lines', 'long-run', 'deep', 'mixed', 'tiny', 'alternating', 'heading-html', 'md-in-html', 'code-options']
+WEIGHTS = [12, 19, 7, 12, 10, 9, 9, 8, 9, 6, 10, 9, 12]
 # short strings over single markup characters: one-character lines, one-character underlines, fences with broken attribute
 # braces, empty labels — the inputs on which an index or a group of a regex is most easily out of range
 TINY = list('*_`[]()<>&\\#-+=!.:|{}~^"\'/;1a \n\n\n\t') + ['```', '~~~', '    ', '[^', ']:', '[a]:', '*[', '!!!', '{:', '}}', '<!', '</', '<?', '&#', '--', ': ', '||', '[[', ']]',
@@ -178,6 +258,8 @@ def gen_case(rng):
         text, fam = F.heading_html(rng)
     elif kind == 'md-in-html':
         text, fam = F.md_in_html_doc(rng)
+    elif kind == 'code-options':
+        text, fam = F.code_options(rng)
     else:
         parts = [rng.choice([lambda: G.soup(rng, G.alphabet(html=True, amp=True, ext=True, ctrl=True), 1, 12),
                              lambda: F.codepoints(rng, 1, 30), lambda: G.fragment(rng, 80),
@@ -193,6 +275,8 @@ def gen_case(rng):
         exts = sorted(set(exts) | {'toc'} | {e for e in F.TOC_FRIENDS if rng.random() < 0.25})
     elif kind == 'md-in-html' and rng.random() < 0.85:
         exts = sorted(set(exts) | {rng.choice(['md_in_html', 'md_in_html', 'extra'])})
+    elif kind == 'code-options' and rng.random() < 0.85:
+        exts = sorted(set(exts) | {rng.choice(['fenced_code', 'fenced_code', 'extra'])} | {e for e in ('codehilite', 'attr_list') if rng.random() < 0.5})
     fmt = rng.choice(['xhtml', 'html'])
     return text, exts, fmt, fam
 
@@ -202,7 +286,7 @@ def _violation(text, exts, fmt, status, detail, fam):
     if status == 'exception':
         obs = '%s: %s (raised in %s)' % (detail['type'], detail['msg'], ' > '.join('%s:%s' % w for w in detail['where'][-3:]))
     elif status == 'timeout':
-        obs = 'timeout: no result after %.0f s of wall clock, twice' % CAP
+        obs = 'timeout: no result after %.0f s of CPU time, twice' % CAP
     else:
         obs = 'returned a %s, not a str' % detail['type']
     return {'input': text, 'config': {'extensions': list(exts), 'output_format': fmt, 'family': fam}, 'observed': obs,
@@ -211,7 +295,8 @@ def _violation(text, exts, fmt, status, detail, fam):
 
 def search(driver, rng, n):
     viol = []; seen = set(); samples = []
-    dist = {'kinds': {}, 'exceptions': {}, 'known': {}, 'timeouts_first': 0, 'max_seconds': 0.0, 'slow_over_2s': 0,
+    # max_seconds / slow_over_2s / max_cpu_by_family are CPU seconds of this process (time.process_time), not wall clock
+    dist = {'kinds': {}, 'exceptions': {}, 'known': {}, 'timeouts_first': 0, 'wallclock_backstop': 0, 'max_seconds': 0.0, 'slow_over_2s': 0, 'max_cpu_by_family': {},
             'ext_count': {}, 'formats': {'html': 0, 'xhtml': 0}, 'len_max': 0, 'len_over_600': 0, 'blank': 0, 'no_timer': 0,
             'nonascii': 0, 'astral': 0}
     if threading.current_thread() is not threading.main_thread():
@@ -241,7 +326,13 @@ def search(driver, rng, n):
             status, detail, dt2 = run_one(text, exts, fmt)   # once more, alone
             dt = max(dt, dt2)
             if status == 'timeout': confirmed_timeouts += 1
+        if status == 'wallclock':
+            # infrastructure event (machine loaded/suspended): counted, never a violation
+            dist['wallclock_backstop'] += 1
+            continue
         dist['max_seconds'] = max(dist['max_seconds'], round(dt, 3))
+        fk = fam.split(':')[0]
+        if dt > dist['max_cpu_by_family'].get(fk, 0.0): dist['max_cpu_by_family'][fk] = round(dt, 3)
         if dt > 2: dist['slow_over_2s'] += 1
         if status != 'ok':
             v = _violation(text, exts, fmt, status, detail, fam)
@@ -264,10 +355,10 @@ def search(driver, rng, n):
 
 def replay(witness):
     status, detail, _ = run_one(_build(witness), witness.get('extensions', []), witness.get('output_format', 'xhtml'))
-    return status != 'ok'
+    return status not in ('ok', 'wallclock')
 
 
 def replay_violation(v):
     c = v.get('config', {})
     status, detail, _ = run_one(v['input'], c.get('extensions', []), c.get('output_format', 'xhtml'))
-    return status != 'ok'
+    return status not in ('ok', 'wallclock')
